@@ -207,6 +207,10 @@ def main(argv=None):
       prop, len(results), len(all_obs), len(discharged), len(sat), n_known, len(unknown), len(undecided_units),
       time.time() - t0, exit_code))
   if args.v:
+    for r in undecided_units:
+      print('   undecided unit', r['unit'], ':', r['undecided'])
+    for r in errors:
+      print('   error', r['unit'], r['error'][-600:])
     for o in all_obs:
       if o['status'] != 'unsat':
         print('  ', o['status'], o['name'], o['info'].get('msg', ''), o.get('model'))
